@@ -32,7 +32,7 @@ ASSUMPTIONS = ["differential oracle: the baseline configuration itself is judged
                "makes the schedule part inconclusive"]
 FLOORS = {'quick': {'span-func': 1500, 'evaluator2': 400, 'unnormalized': 1500, 'num_procs': 40, 'cache-size': 12, 'ops-kwargs': 100},
           'thorough': {'span-func': 15000, 'unnormalized': 15000, 'num_procs': 300, 'cache-size': 60}}
-MANDATORY_TAGS = ['voxelize:far-corner-on-shape', 'trim-twin:aligned', 'trim-twin:generic', 'trim-twin:sense-detected', 'trim-twin:range-short', 'trim-twin:range-long', 'span:binary', 'evaluator2', 'range:per-direction', 'range:[2.0, 5.0]', 'range:[-3.0, 7.5]', 'procs:2', 'procs:4', 'procs:8', 'voxelize-mp',
+MANDATORY_TAGS = ['voxelize:small-model', 'voxelize:far-corner-on-shape', 'trim-twin:aligned', 'trim-twin:generic', 'trim-twin:sense-detected', 'trim-twin:range-short', 'trim-twin:range-long', 'span:binary', 'evaluator2', 'range:per-direction', 'range:[2.0, 5.0]', 'range:[-3.0, 7.5]', 'procs:2', 'procs:4', 'procs:8', 'voxelize-mp',
                   'tessellate-mp', 'tessellate-mp:edit-and-retessellate', 'range-scale:short', 'range-scale:long', 'normalised-from-raw', 'raw:small-domain-start', 'cache:1', 'cache:16', 'cache:1024', 'curve', 'surface', 'volume']
 TECHNIQUE = ("runtime monitoring: cross-configuration differential oracle (same seeded query under each configuration, digests "
              "compared), event-log schedule checker for the multiprocessing pools, separate-interpreter runs for the environment-"
@@ -612,9 +612,15 @@ def check_procs(case, ctx):
                 mx_ = [max(pt[i_] for pt in sd['ctrlpts']) + 1.0 for i_ in range(3)]
                 sd['ctrlpts'][-1] = mx_
                 ctx.tag('voxelize:far-corner-on-shape')
+            if rng.random() < 0.4:
+                # (round 10) a model much smaller than 1: the default padding is relative to the model, for every worker count
+                f_ = rng.choice([1e-6, 1e-8, 2.0 ** -30, 1e-9, 1e-7])
+                sd['ctrlpts'] = [[c_ * f_ for c_ in pt] for pt in sd['ctrlpts']]
+                ctx.tag('voxelize:small-model')
             gs = tuple(rng.randint(3, 6) for _ in range(3))
             ss = rng.randint(3, 5) if pd == 2 else 3
-            vkw = rng.choice([{}, {'tol': 0.11}, {'tol': 0.3}, {'tol': 0.05}, {'use_cubes': True}])     # options must be honoured for every worker count
+            small_ = max(abs(c_) for pt in sd['ctrlpts'] for c_ in pt) < 1e-3
+            vkw = {} if (small_ and rng.random() < 0.6) else rng.choice([{}, {}, {'tol': 0.11}, {'tol': 0.3}, {'tol': 0.05}, {'use_cubes': True}])     # options must be honoured for every worker count
             if vkw:
                 ctx.tag('voxelize-options')
 
